@@ -329,7 +329,32 @@ pub fn run_property(prop: &dyn Property, opts: &RunOpts) -> i32 {
         });
     }
 
+    // per-case heartbeat: a case that does not return for a long time (non-termination outside the
+    // instrumented loops) is named, so that it can be replayed; wall clock never makes a violation
+    let case_limit_s: u64 = std::env::var("VERIF_CASE_LIMIT_S").ok().and_then(|v| v.parse().ok()).unwrap_or(opts.tier.pick(60, 300));
+    let beats: std::sync::Arc<Vec<Mutex<Option<(&'static str, u64, Instant)>>>> = std::sync::Arc::new((0..opts.threads).map(|_| Mutex::new(None)).collect());
+    {
+        let beats = beats.clone();
+        let idc = id.to_string();
+        let seed = opts.seed;
+        std::thread::spawn(move || loop {
+            std::thread::sleep(std::time::Duration::from_secs(2));
+            for b in beats.iter() {
+                if let Some((wl, idx, t)) = b.lock().unwrap().as_ref() {
+                    if t.elapsed().as_secs() > case_limit_s {
+                        println!(
+                            "INCONCLUSIVE property={} case workload={} index={} seed={} has not returned for {}s of wall clock (possible non-termination; not judged by wall clock). Replay file: {{\"workload\":\"{}\",\"index\":{},\"seed\":{}}}",
+                            idc, wl, idx, seed, case_limit_s, wl, idx, seed
+                        );
+                        std::process::exit(2);
+                    }
+                }
+            }
+        });
+    }
+
     let mut wl_summ = Vec::new();
+    let worker_ids = AtomicU64::new(0);
     for wl in &workloads {
         let n = if wl.exhaustive {
             wl.n
@@ -342,6 +367,7 @@ pub fn run_property(prop: &dyn Property, opts: &RunOpts) -> i32 {
             for _ in 0..opts.threads {
                 sc.spawn(|| {
                     hookmon::install();
+                    let my_beat = &beats[(worker_ids.fetch_add(1, Ordering::Relaxed) as usize) % beats.len()];
                     let mut rec = Rec::new(false);
                     let mut local_found: Vec<Found> = Vec::new();
                     let mut local_cases = 0u64;
@@ -356,6 +382,7 @@ pub fn run_property(prop: &dyn Property, opts: &RunOpts) -> i32 {
                         }
                         let end = (start + block).min(n);
                         for idx in start..end {
+                            *my_beat.lock().unwrap() = Some((wl.name, idx, Instant::now()));
                             run_one(prop, wl.name, idx, opts.seed, &mut rec);
                             local_cases += 1;
                             if let Some(v) = rec.viol.take() {
@@ -373,6 +400,7 @@ pub fn run_property(prop: &dyn Property, opts: &RunOpts) -> i32 {
                             }
                         }
                     }
+                    *my_beat.lock().unwrap() = None;
                     cases.fetch_add(local_cases, Ordering::Relaxed);
                     calls.fetch_add(rec.calls, Ordering::Relaxed);
                     {
